@@ -69,7 +69,7 @@ theorem sampler_text_graph :
 theorem policy_codes :
     Gen.cppPoliciesGrid = [("on_t_sample", 0), ("on_iteration", 1), ("on_interval", 2), ("no_sampling", 3)] ∧
     Gen.cppPoliciesGraph = Gen.cppPoliciesGrid ∧
-    Gen.pyPolicies = Gen.cppPoliciesGrid.map (·.1) := by decide
+    Gen.scriptPolicies = Gen.cppPoliciesGrid.map (·.1) := by decide
 
 /-- what `Init` assigns before its final `SamplingStep()` (`SimSt.fresh`) -/
 theorem init_text :
